@@ -17,5 +17,5 @@ if [ "${MUT_TESTS:-0}" = "1" ]; then go test -vet=off -count=1 ./... 2>&1 | grep
 cd "$V"
 rc=0
 for P in "$@"; do
-  VERIF_REPO="$D/repo" VERIF_BUDGET_S=${MUT_BUDGET:-20} VERIF_EVIDENCE_DIR="$D/evidence" python3 verif.py check $P 2>&1 | grep -E "^C[0-9]+ tier|VIOLATION|class=|HARNESS|KNOWN" | head -8
+  VERIF_REPO="$D/repo" VERIF_BUDGET_S=${MUT_BUDGET:-20} VERIF_EVIDENCE_DIR="$D/evidence" python3 verif.py check $P 2>&1 | grep -a -E "^C[0-9]+ tier|VIOLATION|class=|HARNESS|KNOWN" | head -8
 done
